@@ -1,3 +1,4 @@
+\* trace validation: TRACE=<ndjson log of cors random>
 CONSTANTS
   Pats = {}
   HKinds = {}
